@@ -45,6 +45,9 @@ static std::string gen(std::mt19937_64 &rng, int &nprocs) {
   for (int c = 0; c < calls; c++) { int p = rng() % nprocs; o << "LDAP ret" << c << "\nLDBC 0\nOPR ADD\nLDBC 0\n" << "LDAP ret" << c << "\n"; 
     // breg <- return address: LDAP into areg, move to breg via store/load on the stack word
     o << "LDBM 1\nSTAI 5\nLDBM 1\nLDBI 5\nBR " << name[p] << "\nret" << c << "\n"; }
+  // the program prints digits on the console while it is traced (its output shares the stream with the trace): the
+  // leading columns of the lines that follow must still be the count and the address
+  for (int w = 0; w < 2; w++) o << "LDBM 1\nLDAC " << (55 - 4 * w) << "\nSTAI 2\nLDAC 0\nSTAI 3\nLDAC 1\nOPR SVC\nLDAC 0\n";
   o << "LDBM 1\nLDAC 0\nSTAI 2\nLDAC 0\nOPR SVC\n";
   return o.str();
 }
